@@ -1993,6 +1993,36 @@ def call_builtin(eng, name, args, kwargs, node, frame):
             return tv_bool(z3.ForAll([k], z3.Implies(rng, body)))
         return tv_bool(z3.Exists([k], z3.And(rng, body)))
     if name == "sum":
+        from .symexec import SeqView
+        if isinstance(args[0], SeqView) and args[0].concrete is None and len(args) == 1:
+            # symbolic number of summands: the sum is an unknown integer (bounded by the count when the
+            # summands are booleans) - an over-approximation, sound for proofs; models are replayed anyway
+            view = args[0]
+            k = z3.Int(run.fresh_name("sk"))
+            e = eng.to_tv(view.nth(k))
+            sort = e.sort
+            if sort == "val":
+                ev = z3.simplify(e.val())
+                if z3.is_true(z3.simplify(S.is_VBool(ev))):
+                    sort = "bool"
+                elif z3.is_true(z3.simplify(S.is_VInt(ev))):
+                    sort = "int"
+                else:
+                    run.cond_stack.append(z3.And(0 <= k, k < view.length))
+                    try:
+                        if run._entails(S.is_VBool(ev)):
+                            sort = "bool"
+                        elif run._entails(z3.Or(S.is_VBool(ev), S.is_VInt(ev))):
+                            sort = "int"
+                    finally:
+                        run.cond_stack.pop()
+            if sort not in ("bool", "int"):
+                raise _U(f"sum over a symbolic sequence of non-integers: {e.sort} {z3.simplify(e.val()).sexpr()[:300]}")
+            sm = z3.Int(run.fresh_name("sum"))
+            if sort == "bool":
+                run.assume(z3.And(sm >= 0, sm <= view.length))
+            run.assumptions_used.add("sum() over a sequence of unknown length is an unconstrained integer (0..len for booleans)")
+            return tv_int(sm)
         items = eng.iter_concrete(args[0])
         acc = tv_int(0)
         for it in items:
